@@ -4,7 +4,7 @@ from .affine import evaluator, TOP
 from .analysis import flow, regions, cond_of, dominated_by_edge, reach, Point, after, dominates, held_regions_at
 from .anchors import anchors, callee_str, is_shared_write, is_link_load, receiver_field, is_reclaim_atomic
 from .callgraph import callgraph
-from .facts import op_root, strip_generics
+from .facts import op_root, op_local, strip_generics
 from .protocol import validated_regions, mutations, bin_lock_region, user_closure_call
 from .rules_c07 import private_roots
 
@@ -522,7 +522,87 @@ def rule_l9(ctx, facts):
         ctx.fail_closed("L9: expected at least 5 bini/bin pairs (get_node, find, put, compute_if_present, replace_node), found %d" % n)
 
 
+def rule_l10(ctx, facts):
+    """sibling agreement of the tree descent: the routines that insert into a tree bin (TreeBin::new, find_or_put_tree_val) and the routine
+    that searches it (find_tree_node) go to the same child on `node (hash, key) > searched (hash, key)`.  Only agreement is compared, so a
+    consistent mirror image of all of them is accepted."""
+    from .affine import canon_place
+    dirs = {}
+    for b in facts.bodies:
+        if b.kind == "Closure":
+            continue
+        fl = flow(b)
+        for c in b.calls:
+            cal = c.callee
+            if not cal or cal.get("trait") != "std::cmp::Ord" or c.name != "cmp" or b.is_cleanup(c.b):
+                continue
+            a0 = c.arg_local(0)
+            if a0 is None:
+                continue
+            # first operand is a field (hash or key) of a tree node
+            f0 = {fs[-1][1] for base, fs in fl.ref_fields(a0) if fs and fs[-1][0] == "node::Node"}
+            if not f0 & {"hash", "key"}:
+                continue
+            what = "hash" if "hash" in f0 else "key"
+            # the discriminant switch on the result (possibly through Ordering::then)
+            dl = c.dst_local()
+            for blk in range(len(b.blocks)):
+                t = b.term(blk)
+                if t["k"] != "switch":
+                    continue
+                l = op_local(t["on"])
+                src = None
+                for pt, kind, data in b.defs.get(l, []) if l is not None else []:
+                    if kind == "assign" and "discr" in data["rv"] and not data["rv"]["discr"]["proj"]:
+                        src = data["rv"]["discr"]["local"]
+                via_then = src is not None and any(x is not None and callee_str(x).endswith("Ordering::then") and op_root(x.args[0]) in fl.flows_to(dl)
+                                                   for x in fl.call_roots(src))
+                if src is None or not (src in fl.flows_to(dl) or via_then or any(x is not None and x.b == c.b for x in fl.call_roots(src))):
+                    continue
+                for v, tb in t["targets"]:
+                    side = {"1": "Greater", "255": "Less"}.get(v)
+                    if not side:
+                        continue
+                    # which child field is selected in the blocks that only this edge reaches
+                    chosen = set()
+                    for b2 in range(len(b.blocks)):
+                        if b.is_cleanup(b2) or not dominated_by_edge(b, Point(b2, 0), [(blk, tb)]):
+                            continue
+                        # stop at the join: only blocks not reachable from the other edges without passing this one
+                        for st in b.blocks[b2]["stmts"]:
+                            if st["k"] == "assign":
+                                p0 = st["rv"].get("ref") or (st["rv"].get("use") or {}).get("copy")
+                                if p0:
+                                    for e in p0["proj"]:
+                                        if isinstance(e, dict) and e.get("of") == "node::TreeNode" and e.get("name") in ("left", "right"):
+                                            chosen.add(e["name"])
+                                src_l = op_local(st["rv"]["use"]) if "use" in st["rv"] else None
+                                if src_l is not None and b.local_name(src_l) in ("p_left", "p_right"):
+                                    chosen.add("left" if b.local_name(src_l) == "p_left" else "right")
+                    if len(chosen) == 1:
+                        dirs.setdefault((what, side), {}).setdefault(next(iter(chosen)), []).append((b, c))
+    n = 0
+    for (what, side), m in sorted(dirs.items()):
+        n += sum(len(v) for v in m.values())
+        if len(m) == 1:
+            child = next(iter(m))
+            ctx.inst("L10", m[child][0][0], "descent on node %s %s searched %s" % (what, "greater than" if side == "Greater" else "less than", what), m[child][0][1].span, True,
+                     "all %d descent sites go %s: %s" % (len(m[child]), child, sorted({strip_generics(b.id).rsplit("::", 1)[-1] for b, c in m[child]})))
+        else:
+            minority = min(m.items(), key=lambda kv: len(kv[1]))
+            b, c = minority[1][0]
+            ctx.inst("L10", b, "descent on node %s %s searched %s" % (what, "greater than" if side == "Greater" else "less than", what), c.span, False,
+                     "%s goes to the %s child where %s go to the %s child: nodes inserted by one routine are not found by the other" % (
+                         strip_generics(b.id).rsplit("::", 1)[-1], minority[0],
+                         sorted({strip_generics(x.id).rsplit("::", 1)[-1] for k, v in m.items() if k != minority[0] for x, _ in v}),
+                         [k for k in m if k != minority[0]][0]))
+    if n < 8:
+        ctx.fail_closed("L10: expected at least 8 (comparison, child) descent sites in the tree routines, found %d" % n)
+
+
 def run(ctx, facts):
+    ctx.rule("L10", "tree insertion and tree search descend to the same child for the same comparison outcome (sibling agreement)", floor=4)
+    rule_l10(ctx, facts)
     ctx.rule("L9", "Table::bin(T, i) uses an index computed by T.bini(hash) for the same table value (no re-assignment of the table variable in between)", floor=5)
     rule_l9(ctx, facts)
     ctx.rule("L8", "a node's value slot is accessed, and a node is returned as found, only on the true edge of the user's key equality for that node", floor=10)
